@@ -337,6 +337,68 @@ def live_misaddressed(host: bytes, realm: bytes, fl: int) -> bool:
     return why is None
 
 
+def live_unaligned(cut: int) -> bool:
+    """
+    pre: 1 <= cut <= P["span"]
+    post: _
+    """
+    cut = concrete(cut)                  # every cut position, one path each; the rest of the scenario is concrete
+    with untraced():
+        return _live_unaligned(b"\x00\x00\x01"[:P["L"]], cut)
+
+
+def _live_unaligned(data, cut):
+    # a correctly FRAMED but malformed message (a fixed-width AVP with data of the wrong width) in a stream whose reads are not
+    # aligned with message boundaries: [good0] bad good1 cut as  ...good0[:c1] | good0[c1:] bad good1[:cut] | good1[cut:]
+    # (c1 by grid, cut symbolic over the whole of good1).  Afterwards a further well-formed probe must be delivered.
+    from vf.standin import pump
+    cls = G.by_name(P["cls"])
+    code, vendor, flags, _ = G.expected(cls)
+
+    def good(i):
+        return ref_msg(1, 0xc0, 316, 16777251, 0x21000000 + i, 7 + i, [ref_avp(263, 0x40, None, b"s;1;%d" % i), ref_avp(264, 0x40, None, b"peer.host"),
+                                                                        ref_avp(296, 0x40, None, b"peer.realm"), ref_avp(283, 0x40, None, b"local.realm")])
+    bad = ref_msg(1, 0xc0, 316, 16777251, 1, 2, [ref_avp(263, 0x40, None, b"s;1;1"), ref_avp(code, flags, vendor, data)])
+    g0, g1 = good(0), good(1)
+    if len(g1) - 1 != P["span"]:
+        raise AssertionError("grid parameter 'span' is stale")
+    c1 = P["c1"]
+    wire = (g0 if c1 is not None else b"") + bad + g1
+    off = (len(g0) if c1 is not None else 0) + len(bad)
+    bounds = ([c1] if c1 else []) + [off + cut, len(wire)]
+    node = _open_node(P["role"])
+    delivered, prev, why = [], 0, None
+    for b in bounds:
+        node.sock.inbox.append(wire[prev:b])
+        prev = b
+        try:
+            pump(node.transport)
+            node.worker_step()
+            for _ in range(3):
+                if node.assoc.transport is None:
+                    break
+                node.tick()
+                while not node.assoc.postprocess_recv_messages.empty():
+                    delivered.append(node.d.get_message().header.hop_by_hop)
+        except (LIB + (Exception,)) as e:
+            why = f"a node thread died with {type(e).__name__}: {e}"
+            break
+        if node.assoc.lock.locked():
+            why = "association.lock left held"
+            break
+    reached()
+    want = ([bytes.fromhex("21000000")] if c1 is not None else []) + [bytes.fromhex("21000001")]
+    if why is None and node.assoc.transport is not None:
+        # What the property asks of a live node is responsiveness, not delivery of the well-formed messages that shared a
+        # batch with the malformed one (the tree rejects a batch as a whole; `delivered` is only noted): once the stream
+        # has been consumed, a further well-formed request must still get through and the local API must return.
+        while not node.assoc.postprocess_recv_messages.empty():
+            node.assoc.postprocess_recv_messages.get()
+        why = _probe(node)
+    if REPLAY: note(cls=P["cls"], data=data.hex(), c1=c1, cut=cut, why=why, delivered=[d.hex() for d in delivered], sent_wellformed=[w.hex() for w in want])
+    return why is None
+
+
 def live_garbage(g: bytes) -> bool:
     """
     pre: len(g) == P["L"]
@@ -434,6 +496,12 @@ def queries(tier, seed):
             qs.append(Q(f"B/misaddressed/{role}/dh{dh}dr{dr}", "live_misaddressed", {"role": role, "dh": dh, "dr": dr, "Lh": Lh, "Lr": Lr}, cto=t, pto=t,
                         what=f"live {role}: request with Destination-Host {'absent' if not dh else 'arbitrary' + (' (vendor-flagged)' if dh == 2 else '')}, "
                              f"Destination-Realm {'absent' if not dr else 'arbitrary' + (' (vendor-flagged)' if dr == 2 else '')}, arbitrary command flags"))
+        span = len(ref_msg(1, 0xc0, 316, 16777251, 0x21000001, 8, [ref_avp(263, 0x40, None, b"s;1;1"), ref_avp(264, 0x40, None, b"peer.host"),
+                                                                ref_avp(296, 0x40, None, b"peer.realm"), ref_avp(283, 0x40, None, b"local.realm")])) - 1
+        for c1 in ((None, 30) if (tier == "quick" and ri == 0) else (0,) if tier == "quick" else (None, 0, 10, 30)):
+            qs.append(Q(f"B/unaligned/{role}/c{c1}", "live_unaligned", {"role": role, "cls": "ResultCodeAVP", "L": 3, "c1": c1, "span": span}, cto=max(t, 400), pto=max(t, 400),
+                        what=f"live {role}: a framed but malformed message (Result-Code with 3 arbitrary bytes) between two well-formed ones, reads cut "
+                             f"{'inside the first message at ' + str(c1) if c1 else 'at the start' if c1 is None else 'after the first message'} and at EVERY offset of the last one"))
         for L in ((1, 19) if tier == "quick" else (1, 5, 19, 20, 21, 24)):
             qs.append(Q(f"B/garbage/{role}/L{L}", "live_garbage", {"role": role, "L": L, "framed": False}, cto=t, pto=t, what=f"live {role}: {L} arbitrary bytes on the wire"))
     return qs
@@ -442,7 +510,8 @@ def queries(tier, seed):
 BOUNDS = ["one arbitrary field of a 3-AVP reference image per query: Message Length / AVP Length at depth 0 and 1 (all 2^24), flags byte (all 256), "
           "truncation point (all), typed data of width 0..8 (quick) / 0..20 per declared type, trailing bytes 1..19",
           "fully arbitrary buffers: DiameterAVP.load code + <= 6 (quick) / 8 bytes, DiameterMessage.load <= 20 (quick) / 24 bytes",
-          "live node: Open state, client and server roles, one malformed delivery followed by a well-formed probe"]
+          "live node: Open state, client and server roles, one malformed delivery followed by a well-formed probe; a framed malformed message between well-formed ones with reads "
+          "cut at every offset of the following message (and inside the preceding one by grid)"]
 OUTSIDE = ["byte strings that differ from a well-formed image in more than one field and are longer than the raw-buffer bound",
            "AVP codes are concrete per query (hashing a symbolic code realises it)", "real sockets/threads (stand-in transport, single-stepped thread bodies)",
            "connection states other than Open for part B (C06 covers the per-state transition function)"]
